@@ -220,6 +220,8 @@ def eval_cases(prop, items, use_model, tag, timeout=900):
     pending = list(files)
     running = []
     results = {}
+    if len(files) > 16:
+        timeout = max(timeout, 2000)      # several rounds of 16 parallel shards (thorough tier, loaded machine)
     deadline = time.time() + timeout
     while pending or running:
         while pending and len(running) < 16:
